@@ -298,3 +298,26 @@ func verifLemma_C19_call_round_trip(n int, s string, t bool, piped bool, idv uin
 	again, err := ExpressionFromProto(p2)
 	verifrt.Assert(err == nil && again.Equal(back) && again.Begin == b0 && again.End == e0, "second-conversion-changes-nothing")
 }
+
+// C19 (bounded shape): a query literal - the union of a keyed query, a tagged query, a typed
+// query over an intersection of all and a keyed query, and the empty query (key and value
+// strings symbolic) - through the real ToProto / ExpressionFromProto: it converts, the
+// result equals the original and converting again changes nothing.
+func verifLemma_C19_query_round_trip(k string, v string) {
+	q := Union{
+		Keyed{Key: k},
+		Tagged{Key: k, Value: NewStringExpression(v)},
+		Typed{Type: FeatureTypePath, Query: Intersection{All{}, Keyed{Key: "#highway"}}},
+		Empty{},
+	}
+	e := Expression{AnyExpression: QueryExpression{Query: q}, Begin: 1, End: 9}
+	p, err := e.ToProto()
+	verifrt.Assert(err == nil, "converts-to-proto")
+	back, err := ExpressionFromProto(p)
+	verifrt.Assert(err == nil, "converts-back")
+	verifrt.Assert(back.Equal(e) && e.Equal(back) && back.Begin == 1 && back.End == 9, "equal-expression")
+	p2, err := back.ToProto()
+	verifrt.Assert(err == nil, "converts-again")
+	again, err := ExpressionFromProto(p2)
+	verifrt.Assert(err == nil && again.Equal(back), "second-conversion-changes-nothing")
+}
